@@ -20,7 +20,7 @@ CONSTANTS
     Eons,         \* eon numbers named by DKG messages
     MaxDepth,     \* bound on Len(hist)
     Emit,         \* print histories?
-    TagMode       \* "set": remember the classes of refused ops taken (see tags) | "none"
+    TagMode       \* "set" | "refused": remember the classes of refused ops taken (see tags) | "none"
 
 VARIABLES app, g, resp, last, hist, app2, ins, tags
 vars == <<app, g, resp, last, hist, app2, ins, tags>>
@@ -128,7 +128,14 @@ Results(s, o) ==
       [] o.op = "end" -> LET x == EndBlock(s, s.height + 1) IN
                          {[st |-> Commit(x.st), r |-> R("end", tx, 0, x.events, x.updates)]}
 
-TagsNext(o) == IF TagMode = "set" /\ o.op = "tx" /\ Malformed(o.tx) THEN tags \cup {<<o.tx.k, o.tx.bad>>} ELSE tags
+(* "set": the malformed classes taken; "refused": every transaction the spec answers with a code other
+   than Ok (malformed, outsider, wrong eon, duplicate ...), with its sender and the fields that
+   distinguish what an implementation could wrongly record from it *)
+TagsNext(o, code) ==
+    IF TagMode = "set" /\ o.op = "tx" /\ Malformed(o.tx) THEN tags \cup {<<o.tx.k, o.tx.bad>>}
+    ELSE IF TagMode = "refused" /\ o.op = "tx" /\ code # CodeOk
+         THEN tags \cup {<<o.tx.k, o.tx.bad, o.tx.s, o.tx.eon, o.tx.ok>>}
+    ELSE tags
 
 Init ==
     /\ app = InitState /\ app2 = InitState
@@ -149,11 +156,33 @@ Step(i) ==
          /\ g' = GhostNext(g, app, x.r.kind, x.r.tx, x.r, x.st)
     /\ last' = i
     /\ hist' = Append(hist, i)
-    /\ tags' = TagsNext(o)
+    /\ tags' = TagsNext(o, resp'.code)
     /\ UNCHANGED <<app2, ins>>
 
 Next == \E i \in DOMAIN Alphabet : Step(i)
 Spec == Init /\ [][Next]_vars
+
+(* edge coverage: the same transition system, but app2 remembers the state BEFORE the last op and is
+   part of the VIEW, so TLC keeps (and EmitInv prints a history for) every distinct TRANSITION
+   (pre-state, op, post-state), not only every distinct (state, last op): a step whose result depends on
+   how the pre-state differs from the post-state (e.g. a validator update that only removes keys) is
+   otherwise shadowed by another route into the same state. Costs one state per edge: tiny universes. *)
+StepE(i) ==
+    LET o == Alphabet[i] IN
+    /\ Bounded(app)
+    /\ Enabled(app, o)
+    /\ \E x \in Results(app, o) :
+         /\ app' = x.st
+         /\ resp' = x.r
+         /\ g' = GhostNext(g, app, x.r.kind, x.r.tx, x.r, x.st)
+    /\ last' = i
+    /\ hist' = Append(hist, i)
+    /\ tags' = TagsNext(o, resp'.code)
+    /\ app2' = app
+    /\ UNCHANGED ins
+NextE == \E i \in DOMAIN Alphabet : StepE(i)
+SpecE == Init /\ [][NextE]_vars
+EdgeView == <<app, app2, g, last, tags>>
 
 (* C10 C11 C12 step properties of the code-shaped spec *)
 StepProps == [][Failed(g, app, resp'.kind, resp'.tx, resp', app') = {}]_vars
@@ -180,7 +209,7 @@ Step2(i) ==
     /\ g' = g /\ ins' = ins
     /\ last' = i
     /\ hist' = Append(hist, i)
-    /\ tags' = TagsNext(o)
+    /\ tags' = TagsNext(o, resp'.code)
 
 Next2 == \E i \in DOMAIN Alphabet : Step2(i)
 Spec2 == Init /\ [][Next2]_vars
